@@ -310,6 +310,8 @@ func main() {
 	lap("wide_histories")
 	tagHistories(run, run.Scale(60, 400), 14)
 	lap("tag_histories")
+	metaHistories(run, run.Scale(60, 400), 14)
+	lap("meta_histories")
 	pre, ls := catalogAlphabet()
 	exhaustive(run, "catalog", qs, pre, ls, run.Scale(2, 3))
 	pre, ls = kvAlphabet()
